@@ -792,6 +792,9 @@ def schedule_replay(c, rebound, clib, D):
             if clib.reb_integrator_whfast_init(r) != 0:
                 continue
             clib.reb_integrator_whfast_from_inertial(r)
+            for nm_ in ("reb_integrator_whfast_init", "reb_integrator_whfast_from_inertial", "reb_whfast_kepler_step", "reb_whfast_com_step",
+                        "reb_whfast_interaction_step", "reb_whfast_jump_step", "reb_simulation_update_acceleration"):
+                used(nm_)
             N = b.N
             Nact = N if (b.N_active == -1 or b.testparticle_type == 1) else b.N_active
             if st["integrator"] == "saba":
@@ -1032,7 +1035,8 @@ def search(c, rebound, clib, d, syss, refs, focus):
     c.rng.shuffle(order)
     verdicts, ratios, hist = {}, {}, {}
     t0 = time.time()
-    tlimit = 1500 if (c.thorough or focus) else 100
+    # quick: the ladder runs stop 105 s after the START OF THE CHECK (but get at least 45 s), the adaptive / special checks need ~30 s
+    tlimit = 1500 if (c.thorough or focus) else max(45.0, 105.0 - (t0 - c.t0))
     nrun = 0
     dims = c.cov.setdefault("dimensions", {})
 
@@ -1232,6 +1236,109 @@ print(json.dumps(out))
         pts.append((dt, pos_err(st, rs, N)))
     cfg = dict(terms=[(1, 2)])
     return judge(cfg, sd, pts, n_inner)
+
+
+def entry_points(c, rebound, clib, bysys, res):
+    """every public function / Python method that advances or configures the integrators (extracted from rebound.h, integrator.h
+    and the Simulation class of this tree) must have been exercised in this run; the ones the ladder runs do not reach get a smoke
+    test with an oracle here"""
+    import re as _re
+    hdr = open(os.path.join(REPO, "src", "rebound.h")).read()
+    names = set(_re.findall(r"DLLEXPORT[^;\n]*?\b(reb_(?:simulation_(?:step|steps|integrate|synchronize|reset_integrator|update_acceleration)|integrator_\w+|whfast_\w+|ode_create))\s*\(", hdr))
+    names |= set(_re.findall(r"^void\s+(reb_integrator_part[12])\s*\(", open(os.path.join(REPO, "src", "integrator.h")).read(), flags=_re.M))
+    pyn = {"py:" + m for m in ("step", "steps", "integrate", "synchronize", "reset_integrator", "create_ode") if hasattr(rebound.Simulation, m)}
+    sd = bysys["two_planets"]
+    r_ = ctypes.byref
+    # ---- part1 / force / part2 by hand  ==  reb_simulation_step, bit for bit, for every integrator (the anchored two-phase driver)
+    bad = []
+    for integ in ("ias15", "whfast", "leapfrog", "janus", "mercurius", "saba", "eos", "bs", "trace"):
+        a, b = make_sim(rebound, sd), make_sim(rebound, sd)
+        for s_ in (a, b):
+            s_.integrator = integ
+            s_.dt = 0.05
+        for _ in range(3):
+            clib.reb_simulation_step(r_(a))
+            clib.reb_integrator_part1(r_(b))
+            clib.reb_simulation_update_acceleration(r_(b))
+            clib.reb_integrator_part2(r_(b))
+        for s_ in (a, b):
+            clib.reb_simulation_synchronize(r_(s_))
+        if state_of(a) != state_of(b) or a.t != b.t:
+            bad.append(integ)
+        c.count(("part12-vs-step", integ))
+    for nm in ("reb_simulation_step", "reb_integrator_part1", "reb_integrator_part2", "reb_simulation_update_acceleration", "reb_simulation_synchronize"):
+        used(nm)
+    if bad:
+        c.corr_break("reb_integrator_part1 / reb_simulation_update_acceleration / reb_integrator_part2 called by hand differ from reb_simulation_step for %s" % bad, bad)
+    # ---- reb_integrator_ias15_part2 / _reset: a force evaluation followed by part2 is one IAS15 step
+    a, b = make_sim(rebound, sd), make_sim(rebound, sd)
+    for s_ in (a, b):
+        s_.integrator = "ias15"
+        s_.dt = 0.05
+    clib.reb_simulation_step(r_(a))
+    clib.reb_integrator_ias15_reset(r_(b))
+    clib.reb_simulation_update_acceleration(r_(b))
+    clib.reb_integrator_ias15_part2(r_(b))
+    used("reb_integrator_ias15_part2"); used("reb_integrator_ias15_reset")
+    if state_of(a) != state_of(b) or a.t != b.t:
+        c.corr_break("reb_integrator_ias15_part2 after a force evaluation is not one IAS15 step", dict(t=(a.t, b.t)))
+    # ---- reb_integrator_whfast_reset / to_inertial, reb_simulation_reset_integrator: a reset in a synchronized state changes nothing
+    a, b = make_sim(rebound, sd), make_sim(rebound, sd)
+    for s_ in (a, b):
+        s_.integrator = "whfast"
+        s_.dt = 0.05
+        s_.steps(5)
+    clib.reb_integrator_whfast_to_inertial(r_(b))
+    clib.reb_integrator_whfast_reset(r_(b))
+    b.integrator = "whfast"
+    clib.reb_simulation_reset_integrator(r_(b))
+    b.integrator = "whfast"
+    for s_ in (a, b):
+        s_.steps(5)
+    used("reb_integrator_whfast_reset"); used("reb_integrator_whfast_to_inertial"); used("reb_simulation_reset_integrator"); used("py:reset_integrator")
+    dev = max(abs(x - y) for p_, q_ in zip(state_of(a), state_of(b)) for x, y in zip(p_, q_))
+    if not dev <= 1e-13:
+        c.violation("entry:reset-in-synchronized-state", "resetting WHFast (reb_integrator_whfast_reset, reb_simulation_reset_integrator) in a synchronized state changes the continued run by %.2e" % dev, dict(deviation=dev))
+    # ---- MERCURIUS changeover functions: 0 well inside, 1 outside, monotone, within [0, 1]
+    lbad = []
+    for nm in sorted(n for n in names if n.startswith("reb_integrator_mercurius_L_")):
+        f = getattr(clib, nm)
+        f.restype = ctypes.c_double
+        f.argtypes = [ctypes.c_void_p, ctypes.c_double, ctypes.c_double]
+        vals = [f(None, 0.01 * k, 1.0) for k in range(0, 251)]
+        used(nm)
+        if not (all(0.0 <= v <= 1.0 for v in vals) and all(y >= x - 1e-15 for x, y in zip(vals, vals[1:])) and vals[-1] == 1.0 and vals[100] == 1.0 and vals[5] == 0.0):
+            lbad.append(nm)
+        c.count(("L-function", nm))
+    if lbad:
+        c.violation("mercurius:changeover-function", "changeover function(s) %s are not monotone maps onto [0,1] with L(<=0.05 dcrit)=0 and L(>=dcrit)=1" % lbad, dict(functions=lbad))
+    # ---- TRACE switching functions on a well separated pair and on an overlapping pair
+    s_ = make_sim(rebound, sd)
+    s_.integrator = "trace"
+    s_.dt = 0.05
+    s_.steps(1)
+    for nm, argt in (("reb_integrator_trace_switch_default", 3), ("reb_integrator_trace_switch_peri_default", 2), ("reb_integrator_trace_switch_peri_none", 2)):
+        if nm not in names:
+            continue
+        f = getattr(clib, nm)
+        f.restype = ctypes.c_int
+        far = f(r_(s_), 1, 2) if argt == 3 else f(r_(s_), 1)
+        used(nm)
+        ok = (far == 0)
+        if argt == 3:
+            q = s_.copy()
+            q.particles[2].x = q.particles[1].x + 1e-5
+            q.particles[2].y = q.particles[1].y
+            q.particles[2].z = q.particles[1].z
+            ok = ok and f(r_(q), 1, 2) == 1
+        if not ok:
+            c.violation("trace:switching-function:%s" % nm, "%s does not separate a well separated from an overlapping pair" % nm, dict(function=nm, far=far))
+    extracted = sorted(names | pyn)
+    missing = [n for n in extracted if ENTRY_USED.get(n, 0) == 0]
+    c.cov["entry_points"] = {"extracted": len(extracted), "exercised": len(extracted) - len(missing), "missing": missing,
+                             "calls": {n: ENTRY_USED.get(n, 0) for n in extracted}}
+    if missing:
+        c.broken.append("public entry points never exercised in this run: %s" % missing)
 
 
 def extra_checks(c, rebound, clib, d, syss, ref):
@@ -1595,6 +1702,91 @@ def extra_checks(c, rebound, clib, d, syss, ref):
             c.violation("trace:pericentre-step:PARTIAL_BS-vs-FULL_IAS15", "TRACE dt=%g: PARTIAL_BS error %.2e is much larger than FULL_IAS15 %.2e on the same flagged steps" % (dt, e0, eF),
                         dict(dt=dt, partial_bs=e0, full_ias15=eF, t=Tp))
     res["trace_pericentre_steps_error_flagged"] = {"%s/dt=%g" % (["PARTIAL_BS", "FULL_BS", "FULL_IAS15"][k[0]], k[1]): (float("%.2e" % v[0]), v[1]) for k, v in perr.items()}
+    # ---------------- MERCURIUS / TRACE on steps that ARE flagged as a planet-planet close encounter (flag read from the integrator state
+    #                  after every step): the changeover keeps second order and beats plain WHFast (clean tree: 4.1e-5 / 8.4e-5 at
+    #                  dt = 0.04, 1.0e-5 / 2.1e-5 at 0.02; WHFast 1.8e-3 / 4.5e-4)
+    def enc_setup():
+        sim = rebound.Simulation()
+        sim.add(m=1.0)
+        sim.add(m=1e-4, a=1.0, e=0.01, f=0.0)
+        sim.add(m=1e-4, a=1.07, e=0.01, f=0.9, inc=0.01)       # conjunction at t ~ 9, minimum distance 0.67 Hill radii
+        sim.add(m=1e-3, a=4.0, e=0.05, f=1.0)
+        sim.move_to_com()
+        return sim
+    Te = 20.0
+    job = dict(kind="nbody", G=1.0, m=[1.0, 1e-4, 1e-4, 1e-3], active=4, tp_type=0, y0=state_of(enc_setup()), times=[Te])
+    p = subprocess.run(["python3-vt", os.path.join(ROOT, "ref", "C01_reference.py")], input=json.dumps([job]), capture_output=True, text=True, timeout=600)
+    if p.returncode != 0:
+        raise Infra("reference (encounter system) failed: " + p.stderr[-500:])
+    ej = json.loads(p.stdout)[0]
+    if ej["err_est"] > 1e-8:
+        raise Infra("reference of the encounter system not accurate enough: %.1e" % ej["err_est"])
+    ers = ej["states"][repr(Te)]
+    eerr = {}
+    for integ in ("mercurius", "trace", "whfast"):
+        for dt in (0.04, 0.02):
+            sim = enc_setup()
+            sim.integrator = integ
+            n = int(round(Te / dt))
+            sim.dt = Te / n
+            flagged = 0
+            for _ in range(n):
+                sim.steps(1)
+                if integ == "mercurius":
+                    flagged += 1 if sim.ri_mercurius._encounter_N >= 2 else 0
+                elif integ == "trace":
+                    flagged += 1 if sim.ri_trace._encounter_N >= 2 else 0
+            sim.synchronize()
+            eerr[(integ, dt)] = (pos_err(state_of(sim), ers, 4), flagged)
+            c.count(("encounter", integ, dt))
+            if integ != "whfast":
+                dimx("hybrid_integrators_on_flagged_close_encounter_steps", flagged)
+                if flagged == 0:
+                    c.broken.append("%s close-encounter check: no step was flagged as a close encounter (dt %g): the dimension is not exercised" % (integ, dt))
+    for integ in ("mercurius", "trace"):
+        e4, e2, w4 = eerr[(integ, 0.04)][0], eerr[(integ, 0.02)][0], eerr[("whfast", 0.04)][0]
+        if not (e4 <= 4e-4 and e2 <= 1e-4 and e4 >= 2.5 * e2 * (1 if e2 > 1e-9 else 0) and e4 * 5 <= w4):
+            c.violation("%s:close-encounter-step" % integ, "%s through a flagged planet-planet encounter: errors %.2e (dt=.04), %.2e (dt=.02); WHFast %.2e: class bounds 4e-4 / 1e-4, order >= 1.3, >= 5x better than WHFast" % (integ, e4, e2, w4),
+                        dict(system="m=1; m=1e-4 a=1 e=.01; m=1e-4 a=1.07 e=.01 f=.9 inc=.01; m=1e-3 a=4 e=.05 f=1", integrator=integ, t=Te, errors=[e4, e2], whfast=w4))
+    res["hybrid_close_encounter_error_flagged"] = {"%s/dt=%g" % k: (float("%.2e" % v[0]), v[1]) for k, v in eerr.items()}
+    # ---------------- user ODEs carried along by an N-body integrator other than BS (the sub-stepping loop of reb_integrator_part2,
+    #                  integrator.c): polynomial right-hand sides of degree <= 3 are exact at every tolerance, both directions
+    worst_ode = 0.0
+    for integ in ("whfast", "leapfrog", "ias15", "mercurius", "saba", "eos", "janus", "trace"):
+        for sg in ((1, -1) if integ != "trace" else (1,)):
+            for dgr in (1, 3):
+                sim = make_sim(rebound, bysys["two_planets"])
+                sim.integrator = integ
+                sim.ri_ias15.epsilon = 0          # fixed steps also for IAS15
+                sim.ri_bs.eps_rel = 1e-6
+                sim.ri_bs.eps_abs = 1e-6
+                ode = sim.create_ode(length=1, needs_nbody=False)
+
+                def rhs(o, yDot, y, t, dgr=dgr):
+                    yDot[0] = (t - 0.3) ** dgr
+                ode.derivatives = rhs
+                ode.y[0] = 0.7
+                sim.dt = sg * 0.07
+                sim.integrate(sg * 2.0, exact_finish_time=0)
+                exact = 0.7 + ((sim.t - 0.3) ** (dgr + 1) - (-0.3) ** (dgr + 1)) / (dgr + 1)
+                rel = abs(ode.y[0] - exact) / abs(exact)
+                worst_ode = max(worst_ode, rel)
+                c.count(("ode-along", integ, sg, dgr))
+                dimx("user_ode_with_non_bs_integrator")
+                if not rel <= 1e-12:
+                    key = "user-ode:%s:polynomial-exactness" % integ
+                    if integ == "janus" and ode.y[0] == 0.7:
+                        key = "C01:janus-user-ode-never-integrated"
+                    elif rel > 1e-3:
+                        # signature of the one-step time shift: the result is (at least ten times) closer to the solution integrated over [dt, t+dt]
+                        tt = sim.t + sim.dt
+                        shifted = 0.7 + ((tt - 0.3) ** (dgr + 1) - (sim.dt - 0.3) ** (dgr + 1)) / (dgr + 1)
+                        if abs(ode.y[0] - shifted) * 10 <= abs(ode.y[0] - exact):
+                            key = "C01:user-ode-time-shift-with-nbody-integrators"
+                    c.violation(key, "user ODE y' = (t-0.3)^%d carried by %s (dt=%g): relative error %.2e at t=%g" % (dgr, integ, sim.dt, rel, sim.t),
+                                dict(integrator=integ, degree=dgr, dt=sg * 0.07, relative_error=rel))
+    used("reb_ode_create"); used("py:create_ode")
+    res["user_ode_with_non_bs_integrator_worst_relative_error"] = float("%.2e" % worst_ode)
     # ---------------- net external force on the centre of mass: uniform field, exact solution x += g t^2/2
     sd = bysys["two_planets"]
     N = len(sd["bodies"])
@@ -1686,6 +1878,7 @@ print(json.dumps(out))
     bad = [k for k, v in f10.items() if isinstance(v, str) or (isinstance(v, dict) and v.get("-1", 0) > 1e-2 and v.get("-1", 0) > 100 * v.get("1", 1))]
     if bad:
         c.violation("F10:trace-negative-dt", "TRACE with dt<0: %s" % f10, dict(result=f10, system="m=1; m=1e-3 a=1 e=0.95 f=3; m=1e-3 a=3 e=0.1 f=1; t=-6, dt=-0.01"))
+    entry_points(c, rebound, clib, bysys, res)
     c.cov["adaptive_and_other_integrators"] = res
     applicable = ["N_active_lt_N_testparticle_type_0", "N_active_lt_N_testparticle_type_1", "massive_type0_testparticles", "massless_type1_testparticles",
                   "zero_mass_active_body", "single_active_body", "G_not_1", "softening", "unequal_janus_scales", "safe_mode_0_three_integrate_calls",
@@ -1693,7 +1886,10 @@ print(json.dumps(out))
                   "integrate_split_into_calls", "exact_finish_time_1", "dt_longer_than_period", "additional_force_uniform_field", "callbacks_installed",
                   "variational_particles_present", "integrator_switch_midrun", "restore_midrun_copy", "restore_midrun_archive",
                   "moving_centre_of_mass", "com_offset_and_boost", "hyperbolic_member",
-                  "trace_peri_mode_on_flagged_pericentre_steps"]
+                  "trace_peri_mode_on_flagged_pericentre_steps",
+                  "hybrid_integrators_on_flagged_close_encounter_steps", "user_ode_with_non_bs_integrator",
+                  "user_rewrites_particles_and_sets_recalculation_flags", "user_changes_dt_between_calls", "event_adjacency_next_step",
+                  "c_entry_points_as_stepper"]
     for dn in applicable:
         dimc.setdefault(dn, 0)
         if dimc[dn] == 0 and not getattr(c, "_focus", None):
